@@ -185,6 +185,9 @@ func RunRegistry(env *Env, plan *RegistryPlan) {
 	}
 	stamp := func(s string) uint64 { simrt.Logf("%s", s); return simrt.Seq() }
 	started := map[string]bool{}
+	inflight := map[string]int{}
+	opGen := map[string]int{}
+	ambiguous := map[string]bool{}
 	var smu sync.Mutex
 
 	// each op is logged twice (invoke, return) so that event sequence numbers order the history
@@ -245,24 +248,45 @@ func RunRegistry(env *Env, plan *RegistryPlan) {
 			if t == nil {
 				return
 			}
+			// concurrent Start/Stop of one torrent: the order in which rain applies them is not
+			// the order in which the calls return, so the expected flag is unknown until a
+			// start/stop of that torrent runs alone again
+			track := op.Kind == "start" || op.Kind == "stop"
+			alone := false
+			var g0 int
+			if track {
+				smu.Lock()
+				alone = inflight[op.ID] == 0
+				inflight[op.ID]++
+				opGen[op.ID]++
+				g0 = opGen[op.ID]
+				smu.Unlock()
+			}
+			var cerr error
 			node.In(func() {
 				switch op.Kind {
 				case "start":
-					if t.Start() == nil {
-						smu.Lock()
-						started[op.ID] = true
-						smu.Unlock()
-					}
+					cerr = t.Start()
 				case "stop":
-					if t.Stop() == nil {
-						smu.Lock()
-						started[op.ID] = false
-						smu.Unlock()
-					}
+					cerr = t.Stop()
 				case "addtracker":
 					t.AddTracker("http://10.9.9.9:6969/extra")
 				}
 			})
+			if track {
+				smu.Lock()
+				inflight[op.ID]--
+				if alone && opGen[op.ID] == g0 {
+					// nothing else touched the flag of this torrent while we ran
+					if cerr == nil {
+						started[op.ID] = op.Kind == "start"
+					}
+					delete(ambiguous, op.ID)
+				} else {
+					ambiguous[op.ID] = true
+				}
+				smu.Unlock()
+			}
 		case "stats":
 			node.In(func() { node.Sess.Stats() })
 		}
@@ -432,6 +456,10 @@ func RunRegistry(env *Env, plan *RegistryPlan) {
 			for k, v := range started {
 				wasStarted[k] = v
 			}
+			wasAmbiguous := map[string]bool{}
+			for k, v := range ambiguous {
+				wasAmbiguous[k] = v
+			}
 			smu.Unlock()
 			cerr := node.Close()
 			if cerr != nil {
@@ -457,7 +485,9 @@ func RunRegistry(env *Env, plan *RegistryPlan) {
 				if a.Down != b.Down || a.Up != b.Up {
 					simrt.Violate("C14", "restart.counters", "torrent %q transfer counters differ after restart: before down=%d up=%d, after down=%d up=%d", id, b.Down, b.Up, a.Down, a.Up)
 				}
-				if wasStarted[id] != a.Started {
+				if wasAmbiguous[id] {
+					simrt.Count("probe.registry.started_flag_ambiguous", 1)
+				} else if wasStarted[id] != a.Started {
 					simrt.Violate("C14", "restart.started_flag", "torrent %q: started=%v before the restart, running=%v after it", id, wasStarted[id], a.Started)
 				}
 			}
